@@ -8,10 +8,11 @@ Driver for stream `tokens` (C05).  One op per line, one observation per line.
   block IDX                                           -> ok | ok cc    cc = CommitteeChanged is emitted
   onpersist PRIMARYINDEX NOTARIES NTX {SENDER SYS NET NKEYS|- PAYER|-}*     -> ok | ok uncovered | panic | bad-op
                                                       (uncovered: the hypothesis of onpersist_total fails on this block)
-  tx SENDER SIGNERS                                   -> ok            SIGNERS acc:scopes[:allowed..],..
+  tx SENDER SIGNERS                                   -> ok            SIGNERS acc:scopes[:allowed..][:r:±COND..],..
+                                                      COND prefix notation, `.`-separated: T F N A O E S<id> C<id> G H
   transfer neo|gas SRC DST AMT CALLER RECV DATA       -> .             RECV n|a|x|cb   DATA o | nt DTO|- TILL | pk PUB
                                                                        CALLER = calling contract or - (entry script)
-  vote ACC PUB|- CALLER | register PUB | unregister PUB CALLER | lock ACC TILL CALLER
+  vote ACC PUB|- CALLER | register PUB CALLER | unregister PUB CALLER | lock ACC TILL CALLER
   withdraw SRC DST|- CALLER RECV | setgpb GAS CALLER | setregprice P CALLER
   blockacc ACC CALLER | unblockacc ACC CALLER | endcb                                 -> .
   endtx ABORT                                         -> HALT r1 r2 .. | FAULT
@@ -119,13 +120,49 @@ def parseMember (s : String) : Option (Nat × Nat × Int) :=
     pure (p, a, v)
   | _ => none
 
+/-- a witness condition in prefix notation, tokens separated by `.`: T F | N c | A c c | O c c | E | S<id> | C<id> | G | H -/
+def parseCond : Nat → List String → Option (Cond × List String)
+  | 0, _ => none
+  | _, [] => none
+  | f + 1, tok :: r =>
+    if tok == "T" then some (.bool true, r)
+    else if tok == "F" then some (.bool false, r)
+    else if tok == "E" then some (.calledByEntry, r)
+    else if tok == "G" then some (.group, r)
+    else if tok == "H" then some (.calledByGroup, r)
+    else if tok == "N" then do
+      let (c, r1) ← parseCond f r
+      pure (.not c, r1)
+    else if tok == "A" then do
+      let (a, r1) ← parseCond f r
+      let (b, r2) ← parseCond f r1
+      pure (.and a b, r2)
+    else if tok == "O" then do
+      let (a, r1) ← parseCond f r
+      let (b, r2) ← parseCond f r1
+      pure (.or a b, r2)
+    else if tok.startsWith "S" then (tok.drop 1).toString.toNat?.map (fun h => (.scriptHash h, r))
+    else if tok.startsWith "C" then (tok.drop 1).toString.toNat?.map (fun h => (.calledByContract h, r))
+    else none
+
+/-- `+cond` = allow, `-cond` = deny -/
+def parseRule (s : String) : Option (Bool × Cond) :=
+  let allow := s.startsWith "+"
+  if !(allow || s.startsWith "-") then none
+  else
+    match parseCond 64 ((s.drop 1).toString.splitOn ".") with
+    | some (c, []) => some (allow, c)
+    | _ => none
+
+/-- acc:scopes[:allowed contract]*[:r[:rule]*] -/
 def parseSigner (s : String) : Option Signer :=
   match s.splitOn ":" with
-  | a :: sc :: allowed => do
+  | a :: sc :: rest => do
     let a ← a.toNat?
     let sc ← sc.toNat?
-    let al ← allowed.mapM String.toNat?
-    pure ⟨a, sc, al⟩
+    let al ← (rest.takeWhile (· != "r")).mapM String.toNat?
+    let rs ← ((rest.dropWhile (· != "r")).drop 1).mapM parseRule
+    pure ⟨a, sc, al, rs⟩
   | _ => none
 
 def parseList {α : Type} (f : String → Option α) (s : String) : Option (List α) :=
@@ -153,7 +190,7 @@ def parseOp : List String → Option Op
   | "transfer" :: t :: src :: dst :: amt :: c :: recv :: data => do
     pure (.transfer (← parseTok t) (← src.toNat?) (← dst.toNat?) (← amt.toInt?) (← optNat c) (← parseRecv recv) (← parseData data))
   | ["vote", a, p, c] => do pure (.vote (← a.toNat?) (← optNat p) (← optNat c))
-  | ["register", p] => do pure (.register (← p.toNat?))
+  | ["register", p, c] => do pure (.register (← p.toNat?) (← optNat c))
   | ["unregister", p, c] => do pure (.unregister (← p.toNat?) (← optNat c))
   | ["lock", a, t, c] => do pure (.lock (← a.toNat?) (← t.toNat?) (← optNat c))
   | ["withdraw", s, d, c, r] => do pure (.withdraw (← s.toNat?) (← optNat d) (← optNat c) (← parseRecv r))
